@@ -189,7 +189,7 @@ def run(ctx):
         okd = nz.only_through(d, g)
         # ... and the guard is the branch immediately governing the decrement (no other write of the cursor in between)
         pb = nz.point_of(d)[0]
-        direct = any(t == pb for (_, t, _, _) in g)
+        direct = any(t == pb for (_, t, _, _) in [e for e in g if len(e) == 4])
         ctx.check(okd and direct, R3, 'normalize_path:decrement#%d:only-above-floor' % k, 'output cursor decremented without the `out > begin+1` guard', nz.loc(d))
     rs = [i for i in nz.calls() if q.short_of(nz.callee(i)) == 'resize' and nz.ref_of(nz.obj(i)) == pathp]
     ctx.check(len(rs) == 1 and q.always_before_exit(nz, rs), R3, 'normalize_path:result-truncated-to-cursor', 'result is not cut at the output cursor', nz.where)
